@@ -4,13 +4,15 @@ import Proofs.C10Writers
 import Proofs.C10Num
 import Proofs.C10Json
 import Proofs.C10Dump
+import Proofs.C10Flush
+import Proofs.C10Ansi
 /-!
   C10 — property theorems about the model of fq's display code (FqModel/Dump.lean,
   FqModel/C10Json.lean).  Helper lemmas live in Proofs/C10*.lean.  All theorems hold for every
   byte string, width ≥ 1, start offset, chunking, base 2..36 and integer — no size bound.
 -/
 namespace Props.C10
-open FqModel.Dump FqModel.C10Json Proofs.C10Writers Proofs.C10Num Proofs.C10Json Proofs.C10Dump
+open FqModel.Dump FqModel.C10Json Proofs.C10Writers Proofs.C10Num Proofs.C10Json Proofs.C10Dump Proofs.C10Flush Proofs.C10Ansi FqModel.Ansi
 
 /-! ### hexpairwriter -/
 
@@ -177,17 +179,57 @@ theorem dump_ascii (o : Opts) (W : Nat) (indent : List Char) (root : List UInt8)
   have hoff : g.startLineByteOffset < o.lineBytes := Nat.mod_lt _ hlb
   simpa using ascii_parse_back o.lineBytes g.startLineByteOffset hlb hoff [bytes] hne
 
-/-- FULL statement (design `addr_width_enough`): every address line of a dump fits the address
-    column, i.e. `DigitsInBase(BitsByteCount(stop), true, addrbase) ≥ digitsNeeded addrbase A` for
-    every printed address `A`, so that `FlushLine` never cuts an address.
-    PROVED part: a printed address is exactly as wide as the column whenever the column is at least
-    `digitsNeeded` wide.  MISSING: `mathx.DigitsInBase` itself (float `math.Log`, not modelled) and
-    the monotonicity of `digitsNeeded`; both are covered by the correspondence run only (`digits`
-    cases for all n < 300 and around every power of 9 bases up to 2^40, and every dump case compares
-    the observed column width with `digitsNeeded` and reads every printed address back). -/
-theorem addr_width_enough_partial (n b W : Nat) (h : digitsNeeded b n ≤ W) :
-    (padFormat n b true W).length = W := by
-  rw [padFormat_length]; omega
+/-- `digitsNeeded b n` (prefix + integer digit count) is the specification of
+    `mathx.DigitsInBase(n, true, b)`; it is monotone, so a column wide enough for the stop byte
+    count is wide enough for every smaller address. -/
+theorem digitsNeeded_monotone (b n m : Nat) (hb : 2 ≤ b) (h : n ≤ m) :
+    digitsNeeded b n ≤ digitsNeeded b m := digitsNeeded_mono b n m hb h
+
+/-- The address column is wide enough (design `addr_width_enough`): if the column width covers
+    `2*rootDepth + DigitsInBase(stop byte count)` of the value — which `dump` guarantees by taking the
+    maximum over all values (dump.go:352-358) — then it covers every address line of the value, so
+    (by `nested_addr_truncated_iff`) at root depth 0 no address is cut and each reads back exactly. -/
+theorem addr_width_enough (o : Opts) (colW rootDepth rootBits start len : Nat)
+    (hlb : 1 ≤ o.lineBytes) (hab : 2 ≤ o.addrbase ∧ o.addrbase ≤ 36) (hlen : 0 < len)
+    (hW : 2 * rootDepth + digitsNeeded o.addrbase ((start + len + 7) / 8) ≤ colW) :
+    let g := geom o rootBits start len
+    ∀ i, i < g.addrLines →
+      2 * rootDepth + digitsNeeded o.addrbase (g.startLineByte + i * o.lineBytes) ≤ colW
+      ∧ (rootDepth = 0 →
+          addrCell o colW 0 (g.startLineByte + i * o.lineBytes) = addrText o colW 0 (g.startLineByte + i * o.lineBytes)
+          ∧ parseAddr o.addrbase (addrText o colW 0 (g.startLineByte + i * o.lineBytes))
+              = some (g.startLineByte + i * o.lineBytes)) := by
+  intro g i hi
+  have hA := addr_line_le o rootBits start len hlb hlen i hi
+  have hmono := digitsNeeded_mono o.addrbase _ _ hab.1 hA
+  have h1 : 2 * rootDepth + digitsNeeded o.addrbase (g.startLineByte + i * o.lineBytes) ≤ colW := by
+    show 2 * rootDepth + digitsNeeded o.addrbase ((geom o rootBits start len).startLineByte + i * o.lineBytes) ≤ colW
+    omega
+  refine ⟨h1, ?_⟩
+  intro h0
+  subst h0
+  have hc := addrCell_eq o colW 0 _ h1
+  have hl := addrText_length o colW 0 _ h1
+  refine ⟨?_, ?_⟩
+  · rw [hc]; exact List.take_of_length_le (by omega)
+  · simp only [addrText, rootIndent, Nat.mul_zero, List.replicate_zero, List.nil_append, Nat.sub_zero]
+    exact parseAddr_padFormat _ _ _ hab.1 hab.2
+
+/-- The float-logarithm implementation returns one digit too few at some exact powers of the base
+    (`DigitsInBase(1000, true, 10) = 3`, replayed on fq by corpus line `digits 10 1000`).  That is
+    harmless: the column then still holds every address below the stop byte count, because
+    `b^(k+1) - 1` needs exactly one digit less than `b^(k+1)`. -/
+theorem digits_quirk_harmless (b k : Nat) (hb : 2 ≤ b) :
+    digitsNeeded b (b ^ (k + 1) - 1) + 1 = digitsNeeded b (b ^ (k + 1))
+      ∧ ∀ a, a < b ^ (k + 1) → digitsNeeded b a ≤ digitsNeeded b (b ^ (k + 1)) - 1 := by
+  have h1 := (formatBase_length_pow b hb k).2
+  have h2 := (formatBase_length_pow b hb (k + 1)).1
+  have e : digitsNeeded b (b ^ (k + 1) - 1) + 1 = digitsNeeded b (b ^ (k + 1)) := by
+    unfold digitsNeeded; omega
+  refine ⟨e, ?_⟩
+  intro a ha
+  have := digitsNeeded_mono b a (b ^ (k + 1) - 1) hb (by omega)
+  omega
 
 example : digitsNeeded 16 255 ≤ 4 := by decide
 
@@ -241,6 +283,116 @@ theorem truncation_marker (o : Opts) (W : Nat) (indent : List Char) (root : List
   · exact untilText_shape o rootBits start len
 
 example : (geom ⟨8, 16, 10, 3⟩ 208 11 139).stopByte ≠ (geom ⟨8, 16, 10, 3⟩ 208 11 139).lastDisplayByte := by decide
+
+/-! ### columnwriter: row assembly -/
+
+/-- `columnwriter.Writer.Flush` (model `flush`): the number of output lines is the largest number of
+    COMPLETE lines any column held before `PreFlush` (bar columns count 1) — the quirk of
+    columnwriter.go:177-187 — and output line `k` is the concatenation, column by column, of
+    `FlushLine k`: for a text column its `k`-th line cut to the column width and, unless it is the
+    last column, padded to exactly that width (so every bar is at a fixed position); for a bar
+    column the bar. -/
+theorem flush_rows_aligned (cols : List Column) :
+    (flush cols).length = (cols.map Column.linesBefore).foldl max 0
+    ∧ (∀ k, k < (cols.map Column.linesBefore).foldl max 0 →
+        (flush cols)[k]? = some
+          ((cols.zipIdx.map fun (c, i) => c.flushLine k (i + 1 == cols.length)).flatten))
+    ∧ (∀ (wd : Nat) (t : List Char) (k : Nat),
+        (Column.multi (some wd) t).flushLine k false
+          = fitCell wd (((Column.multi (some wd) t).linesAfter)[k]?.getD [])
+        ∧ ((Column.multi (some wd) t).flushLine k false).length = wd) := by
+  refine ⟨(flush_rows cols).1, (flush_rows cols).2, ?_⟩
+  intro wd t k
+  refine ⟨flushLine_multi wd t k, ?_⟩
+  rw [flushLine_multi]; exact fitCell_length _ _
+
+/-- the quirk is real in the model (and in fq: `colw` correspondence cases): an unterminated second
+    line of a column is dropped when no column has two complete lines -/
+theorem flush_drops_partial_witness :
+    flush [.multi (some 2) "a\nb".toList, .bar ['|'], .multi none "x\n".toList] = ["a |x".toList] := by
+  decide
+
+/-- In a dump the quirk never bites, and rows stay together: for the data of one value (second
+    `Flush` of dumpEx, any root depth) the hex and ascii layouts have exactly `addrLines` rows, and
+    output line `i` is
+      address cell of line `i` | `i`-th row of hex cells (+ optional end marker `|`) | `i`-th row of
+      ascii cells (+ optional marker) | tree cell,
+    where the rows fit their columns (nothing is cut), and displayed byte `j` is the cell at row
+    `(off+j)/lineBytes`, position `(off+j)%lineBytes` of both rows — the very row whose address cell
+    is `startLineByte + row*lineBytes` (`dump_addresses`). -/
+theorem dump_row_alignment (o : Opts) (colW rd : Nat) (root : List UInt8) (rootBits start len : Nat)
+    (tree : List Char) (hlb : 1 ≤ o.lineBytes) (hab : 2 ≤ o.addrbase ∧ o.addrbase ≤ 36)
+    (hlen : 0 < len) (hin : start + len ≤ rootBits) (hroot : (rootBits + 7) / 8 ≤ root.length) :
+    let g := geom o rootBits start len
+    let bytes := dataBytes root g.startByte g.displaySizeBits
+    let off := g.startLineByteOffset
+    let hexRows := rowsFrom o.lineBytes 0 (hexCells off bytes)
+    let ascRows := rowsFrom o.lineBytes 0 (asciiCells off bytes)
+    let dc := dataColumns o (colW - rd) (rootIndent rd) root rootBits start len
+    hexRows.length = g.addrLines ∧ ascRows.length = g.addrLines
+    ∧ (∀ i, i < g.addrLines → ∃ hr ar mh ma tc,
+        hexRows[i]? = some hr ∧ ascRows[i]? = some ar
+        ∧ (flush (mkCols o colW dc.1 dc.2.1 dc.2.2 tree))[i]?
+            = some (addrCell o colW rd (g.startLineByte + i * o.lineBytes) ++ ['|']
+                ++ fitCell (o.lineBytes * 3 - 1) (joinSp [' '] hr ++ mh) ++ ['|']
+                ++ fitCell o.lineBytes (joinSp [] ar ++ ma) ++ ['|'] ++ tc)
+        ∧ (joinSp [' '] hr).length ≤ o.lineBytes * 3 - 1 ∧ (joinSp [] ar).length ≤ o.lineBytes
+        ∧ (mh = [] ∨ mh = ['|']) ∧ (ma = [] ∨ ma = ['|']))
+    ∧ (∀ j (hj : j < bytes.length),
+        (hexRows[(off + j) / o.lineBytes]?).bind (·[(off + j) % o.lineBytes]?) = some (hexPair bytes[j])
+        ∧ (ascRows[(off + j) / o.lineBytes]?).bind (·[(off + j) % o.lineBytes]?) = some [safeAscii bytes[j]]) := by
+  intro g bytes off hexRows ascRows dc
+  obtain ⟨h1, h2, h3⟩ := dump_rows o colW rd root rootBits start len tree hlb hab hlen hin hroot
+  exact ⟨h1, h2, h3, fun j hj => cells_in_rows o.lineBytes off hlb bytes j hj⟩
+
+/-! ### colour -/
+
+/-- With colour on, dump.go wraps every hex pair and ascii character in the escape codes of
+    `ByteColor(b)` (any codes, possibly different per byte).  Stripping the escape sequences from
+    what the writers then emit — for any chunking — gives exactly the colourless text, and no escape
+    sequence is left open. -/
+theorem color_transparent_cells (set reset : UInt8 → List Char) (hm : ∀ b, 'm' ∉ set b ∧ 'm' ∉ reset b)
+    (w start : Nat) (hw : 1 ≤ w) (chunks : List (List UInt8)) (hc : chunks ≠ []) :
+    strip (hexRunF (colourHex set reset) w start 0 chunks) = hexRun w start 0 chunks
+    ∧ balanced (hexRunF (colourHex set reset) w start 0 chunks)
+    ∧ strip (asciiRunF (colourAscii set reset) w start 0 chunks) = asciiRun w start 0 chunks
+    ∧ balanced (asciiRunF (colourAscii set reset) w start 0 chunks) :=
+  ⟨(strip_hexRunF set reset hm w start hw chunks hc).1, (strip_hexRunF set reset hm w start hw chunks hc).2,
+   (strip_asciiRunF set reset hm w start hw chunks hc).1, (strip_asciiRunF set reset hm w start hw chunks hc).2⟩
+
+example : strip (hexRunF (colourHex (fun _ => "31".toList) (fun _ => "39".toList)) 4 1 0 [[1], [2, 255]])
+    = "   01 02 ff".toList := by decide
+
+/-- `ansi.Slice(s, 0, n)` (what cuts an over-long coloured cell) shows exactly the first `n` visible
+    characters; `ansi.Len` counts the visible characters. -/
+theorem ansi_slice_true (n : Nat) (hn : 1 ≤ n) (s : List Char) (h : n < ansiLen s) :
+    strip (ansiSlice0 n s) = (strip s).take n ∧ balanced (ansiSlice0 n s) := ansiSlice0_spec n hn s h
+
+/-- An output line with colour on: the columnwriter measures, cuts and pads the coloured cells with
+    `ansi.Len`/`ansi.Slice`.  Stripping the escape sequences of the printed line gives exactly the
+    line printed with colour off (for the stripped cells), whatever the codes are, as long as no
+    cell leaves an escape sequence open. -/
+theorem color_transparent (W hw aw : Nat) (hW : 1 ≤ W) (hhw : 1 ≤ hw) (haw : 1 ≤ aw)
+    (a h s t : List Char) (ba : balanced a) (bh : balanced h) (bs : balanced s) :
+    strip (fitCellC W a ++ ['|'] ++ fitCellC hw h ++ ['|'] ++ fitCellC aw s ++ ['|'] ++ t)
+      = fitCell W (strip a) ++ ['|'] ++ fitCell hw (strip h) ++ ['|'] ++ fitCell aw (strip s) ++ ['|'] ++ strip t := by
+  obtain ⟨a1, a2⟩ := fitCellC_strip W hW a ba
+  obtain ⟨h1, h2⟩ := fitCellC_strip hw hhw h bh
+  obtain ⟨s1, s2⟩ := fitCellC_strip aw haw s bs
+  have bar := plain_strip ['|'] (by decide)
+  have cl : ∀ x : List Char, stateAfter false x = false → stateAfter false (x ++ ['|']) = false := by
+    intro x hx; rw [stateAfter_append, hx]; exact bar.2
+  have st : ∀ x : List Char, stateAfter false x = false → strip (x ++ ['|']) = strip x ++ ['|'] := by
+    intro x hx; rw [strip_append_closed _ _ hx]; simp [strip, bar.1]
+  have c1 := cl _ a2
+  have c2 : stateAfter false (fitCellC W a ++ ['|'] ++ fitCellC hw h) = false := by
+    rw [stateAfter_append, c1]; exact h2
+  have c3 := cl _ c2
+  have c4 : stateAfter false (fitCellC W a ++ ['|'] ++ fitCellC hw h ++ ['|'] ++ fitCellC aw s) = false := by
+    rw [stateAfter_append, c3]; exact s2
+  have c5 := cl _ c4
+  rw [strip_append_closed _ _ c5, st _ c4, strip_append_closed _ _ c3, st _ c2,
+    strip_append_closed _ _ c1, st _ a2, a1, h1, s1]
 
 /-! ### known finding `nested-root-address-truncated` -/
 
